@@ -65,6 +65,30 @@ func init() {
 			}
 			meta := map[string]string{"buf": buf, "pos": fmt.Sprint(pos), "count": fmt.Sprint(count)}
 			var keys []string
+			if r.Intn(8) == 0 {
+				// the text is killed, yanked back (into the line the kill left, often empty), the line is then edited —
+				// characters typed in its middle, a character deleted, a word case-changed — and yanked into again:
+				// what comes out of the ring is still what the kill took (the line must not share storage with the ring)
+				meta["kind"], meta["cmd"] = "yank-then-edit", []string{"kill-whole-line", "kill-line", "backward-kill-line", "kill-buffer"}[r.Intn(4)]
+				sp.Binds = append(sp.Binds, Bind{Seq: `\C-x\C-za`, Cmd: meta["cmd"]})
+				if meta["cmd"] == "kill-line" {
+					sp.Inject[0].Pos = 0
+				} else if meta["cmd"] == "backward-kill-line" {
+					sp.Inject[0].Pos = len([]rune(buf))
+				}
+				keys = append(keys, "\x18\x190", "\x18\x1aa", "\x18\x1ab", "\x01")
+				for k := r.Intn(4); k > 0; k-- {
+					keys = append(keys, "\x06")
+				}
+				keys = append(keys, []string{"X", "X", "\x04", "\x1bu", "\x14"}[r.Intn(5)])
+				if r.Intn(2) == 0 {
+					keys = append(keys, "Y")
+				}
+				keys = append(keys, "\x05", "\x18\x1ab")
+				meta["probe"] = "2"
+				sp.Chunks = hexChunks(keys)
+				return Case{Specs: []Spec{sp}, Class: "yank-then-edit/" + meta["cmd"], Meta: meta}
+			}
 			switch r.Intn(6) {
 			case 5: // more kills than the ring has slots (ten), each from a fresh state: yank gives the most recent
 				cmd := killCmds[r.Intn(len(killCmds))]
@@ -151,6 +175,34 @@ func init() {
 			var probe int
 			fmt.Sscan(c.Meta["probe"], &probe)
 			if len(tr.Waits) <= probe+1 {
+				return nil
+			}
+			if c.Meta["kind"] == "yank-then-edit" {
+				nk := len(c.Specs[0].Chunks)
+				if len(tr.Waits) < nk+1 {
+					return nil
+				}
+				before, killed := tr.Waits[1], tr.Waits[2]
+				if before.Line == killed.Line || killed.Kill == "" {
+					stat("yank-then-edit: nothing killed")
+					return nil
+				}
+				took := killed.Kill
+				if len(removedBy([]rune(before.Line), []rune(killed.Line), []rune(took))) == 0 {
+					return nil // the other classes decide what a kill stores
+				}
+				stat("decided: yank-then-edit")
+				// the ring is not written by the edits: its top is what the kill took, at every wait
+				for k := 3; k <= nk; k++ {
+					if tr.Waits[k].Kill != took {
+						return []Finding{{"C16", "kill-ring-entry-changes-with-the-line/" + c.Meta["cmd"], fmt.Sprintf("%s took %q from %q; after the keys %q the top of the kill ring is %q (line %q)", c.Meta["cmd"], took, before.Line, unhex(c.Specs[0].Chunks[:k]), tr.Waits[k].Kill, tr.Waits[k].Line), c}}
+					}
+				}
+				// and the last yank inserts exactly that
+				prev, last := tr.Waits[nk-1], tr.Waits[nk]
+				if len(removedBy([]rune(last.Line), []rune(prev.Line), []rune(took))) == 0 {
+					return []Finding{{"C16", "yank-differs/yank-then-edit/" + c.Meta["cmd"], fmt.Sprintf("%s took %q; the last yank into %q gives %q", c.Meta["cmd"], took, prev.Line, last.Line), c}}
+				}
 				return nil
 			}
 			if c.Meta["kind"] == "ring" {
